@@ -5,7 +5,7 @@ from ..calls import call_both
 from ..gen import Lib, ProgGen, mutate, compatible, CLASS_OF
 from .C11 import REPS, ALLT, decl_type
 
-PROOF_MODULES = ['Resynth.Props.C08', 'Resynth.Props.C08File', 'Resynth.Props.C08Batch', 'Resynth.Props.C08Loc']
+PROOF_MODULES = ['Resynth.Props.C08', 'Resynth.Props.C08File', 'Resynth.Props.C08Batch', 'Resynth.Props.C08Loc', 'Resynth.Props.C08Pos']
 
 RULE = ("(1) in-process: every function and method of the real library x every parameter x every value type the language can produce "
         "(15 types) and boundary values (0, max of each width, empty and 70 kB strings, 6/7-byte MACs), plus call shapes with missing/"
